@@ -261,7 +261,8 @@ def run_check(prop, tier, seed, workdir, t_start, jobs):
     raw_diffs = [d for r in results for d in r['diffs']]
     extra_fail = [e for r in results for e in r['extra_fail']]
     # required branch counters (sanity of the generator, not a violation)
-    for k in getattr(mod, 'REQUIRED_COUNTERS', {}).get(tier, []):
+    # (only meaningful for a run that went through: a campaign cut short by a failure has not filled its counters)
+    for k in ([] if (raw_diffs or extra_fail) else getattr(mod, 'REQUIRED_COUNTERS', {}).get(tier, [])):
         if counters.get(k, 0) == 0:
             raise Infra(f'generator sanity: required branch counter {k!r} is 0')
     # 5/6 verdict
@@ -283,6 +284,18 @@ def run_check(prop, tier, seed, workdir, t_start, jobs):
         hit = [k for (k, t) in known if k == key]
         if hit:
             known_hits.setdefault(key, [t for (k, t) in known if k == key][0])
+            continue
+        # an op whose output is an intermediate representation (e.g. the text a writer produces, which the property
+        # constrains only through what a reader makes of it) breaks the CORRESPONDENCE when it differs, not by itself the
+        # property: the module's independent oracle then has to exhibit a failing input, else `no-failing-input-found`
+        co = getattr(mod, 'CORRESPONDENCE_ONLY_OPS', ())
+        bad_ops = [o.split(' ', 1)[0] for o, a, b in zip(ops, exp, got) if a != b]
+        if bad_ops and all(b in co for b in bad_ops):
+            i = next(i for i, (a, b) in enumerate(zip(exp, got)) if a != b)
+            msg = (f'correspondence broken at op {bad_ops[0]}: model {str(exp[i])[:200]!r} / implementation {str(got[i])[:200]!r}')
+            if not any(p_.startswith('correspondence broken') for p_ in problems):
+                problems.append(msg)
+                broken_corr.append({'ops': ops, 'model': exp, 'impl': got, 'key': key})
             continue
         violations.append({'kind': 'counterexample', 'ops': ops, 'model': exp, 'impl': got,
                            'key': key, 'meta': d['meta']})
